@@ -7,7 +7,7 @@ from harness import core, py2lean, instantiate
 from harness.core import Outcome, f2b, b2f
 
 ID = "C16"
-LEAN_TARGETS = ["BeyondVerif.Props.C16", "BeyondVerif.Props.C16Helpers", "BeyondVerif.Props.C16Seq", "BeyondVerif.Props.C16HelperSrc", "BeyondVerif.Props.C16Lin", "BeyondVerif.Props.C16Src", "BeyondVerif.Witness.C16"]
+LEAN_TARGETS = ["BeyondVerif.Props.C16", "BeyondVerif.Props.C16Helpers", "BeyondVerif.Props.C16Seq", "BeyondVerif.Props.C16HelperSrc", "BeyondVerif.Props.C16Lin", "BeyondVerif.Props.C16Src", "BeyondVerif.Props.C16Frames", "BeyondVerif.Witness.C16"]
 THEOREMS = [
     "BeyondVerif.C16.cw_zero",
     "BeyondVerif.C16.cw_solves_hill",
@@ -79,6 +79,17 @@ THEOREMS = [
     "BeyondVerif.C16.cont_check_from_source",
     "BeyondVerif.C16.man_window_from_source",
     "BeyondVerif.C16.window_independent_of_date_pos",
+    "BeyondVerif.C16.meanMotion_kepler3",
+    "BeyondVerif.C16.n_stable_run",
+    "BeyondVerif.C16.tnw_stable_run",
+    "BeyondVerif.C16.propagate_stable_run",
+    "BeyondVerif.C16.n_newProp",
+    "BeyondVerif.C16.n_copy",
+    "BeyondVerif.C16.readMemo_eq_current_partial",
+    "BeyondVerif.C16.readMemo_idempotent",
+    "BeyondVerif.C16.copy_read_current",
+    "BeyondVerif.C16.readFixed_after_write",
+    "BeyondVerif.C16W.memo_stale_after_write",
 ]
 LEVEL_TEXT = ("Lean theorems over R about the evolution and acceleration matrices translated from cw.py on every run: the propagated state has, "
               "component by component, the derivative prescribed by Hill's equations with constant thrust (HasDerivAt, all t, all n != 0), "
@@ -90,7 +101,10 @@ LEVEL_TEXT = ("Lean theorems over R about the evolution and acceleration matrice
               "kernel-checked counter-witnesses outside; the sequencing of the proposed fix equals it unconditionally. The sequencing model is hand-written and "
               "tied by a differential correspondence run against ClohessyWiltshire.propagate (first and second leg). The rendezvous helper is translated from "
               "cwhelper.py on every run: its maneuvers are proved to be the ones the outcome theorems start from, its TNW results the permutation of the QSW ones, "
-              "and each helper's own list is run end to end through the model of propagate.")
+              "and each helper's own list is run end to end through the model of propagate. Mean motion: `meanMotionSrc` is translated from ClohessyWiltshire.n on every run "
+              "(n^2 a^3 = mu, n > 0: meanMotion_kepler3); the object model World (Hill frames and propagators of one process, memo-free) proves that mean motion, orientation and every "
+              "propagated state of a propagator are functions of its own frame's centre and its own semi major axis, unchanged by any later creation of frames / propagators, copy or read "
+              "(n_stable_run, tnw_stable_run, propagate_stable_run, n_newProp, n_copy); tied by the correspondence run `world` (random histories on the real classes).")
 LEVEL_NOTE = ("R -> double gap covered only by tolerance-bounded correspondence; uniqueness of the solution of the linear ODE is not formalised (hillSol is shown to BE a "
               "piecewise solution with the right initial value, jumps and joins; that there is no other is the classical Picard-Lindelof fact); second-order agreement with "
               "nonlinear relative motion is not covered by any theorem; Lean kernel + propext/Classical.choice/Quot.sound; py2lean translator, the cwhelper translator of "
@@ -102,22 +116,30 @@ TRUSTED = [
     "lean/templates/CW.tpl (hand-written maneuver sequencing cwPropagate, TNW rotation, reference solution hillSol), tied by the correspondence run (cw, cw0 second leg; cwref / cwfix against the independent integration)",
     "harness/props/C16.py translate_sequencing_source: reads the tests of the maneuver loop of ClohessyWiltshire.propagate (which of man.date / man.start / man.stop is compared, guards `if ...: continue` included), "
     "the coast target, ContinuousMan.check and the (date, duration, date_pos) -> (start, stop) window of ContinuousMan.__init__ into Generated/CWSeqSrc{F,R}.lean on every run; Props/C16Src.lean proves them equal to what cwPropagate uses",
+    "lean/templates/CWFrames.tpl (hand-written object model of HillFrame / ClohessyWiltshire construction, frame=\"Hill\" resolution to the frame created last, copy), tied by the correspondence run `world`; "
+    "harness/props/C16.py translate_mean_motion: ClohessyWiltshire.n -> Generated/CWMean{F,R}.lean and the AST checks of ClohessyWiltshire.__init__ / copy and HillFrame.__init__ (store what they are given)",
     "numpy / libm double arithmetic vs R: tolerance 1e-9 relative",
 ]
-ASSUMPTIONS = ["maneuvers are given in the frame of the orbit (frame=None); QSW/TNW-tagged maneuvers belong to C17",
+ASSUMPTIONS = ["the gravitational parameter of a centre (Center.body.mu) does not change during a process",
+               "maneuvers are given in the frame of the orbit (frame=None); QSW/TNW-tagged maneuvers belong to C17",
                "theorems are over R; the implementation computes in IEEE doubles",
                "maneuver vectors have three components (WF), states six"]
 NOT_COVERED = ["second-order agreement with the difference of two Keplerian orbits: the theorem relAcc_linearisation shows that Hill's right-hand side is the directional derivative, in every "
                "direction, of the exact relative two-body acceleration at the target (the target being an equilibrium, relAcc_zero); the Frechet form with an explicit O(sep^2) remainder and the passage "
                "from the vector field to its solutions are not formalised - oracle second-order-agreement (real propagator vs RK4 integration of the exact relative dynamics, fitted exponent >= 1.8)"]
-OPEN = ["uniqueness of the piecewise solution of Hill's equations (so that hillSol is THE solution) is not formalised",
+OPEN = ["current code: the mean motion is memoised and not invalidated by writes of sma / frame (open finding C16-mean-motion-memo-stale-after-write): the memoised read is the current mean motion only "
+        "when the memo is empty or was filled with the current values (readMemo_eq_current_partial; counter-witness memo_stale_after_write); the World theorems are about propagators whose sma / frame are not reassigned",
+        "uniqueness of the piecewise solution of Hill's equations (so that hillSol is THE solution) is not formalised",
         "current code: state_solves_hill_piecewise_thrust holds only under NoCut / Clear (open findings C16-return-inside-burn-drops-later-maneuvers, C16-backward-ignores-past-maneuvers); "
         "the unconditional theorem is proved for the sequencing of proposed_fixes/C16-maneuver-superposition.diff (cwPropagateFixed)"]
 RULE = ("correspondence: random (n from radii LEO..GEO, |t| <= 2 periods, relative states up to km and m/s, 0-5 maneuvers, both orientations) through "
         "ClohessyWiltshire._propagate/propagate vs the compiled Lean model; maneuver lists of every shape (overlapping / nested / back-to-back burns, impulses inside and at the ends "
         "of burns, non-chronological, dated before the orbit; burns declared with date_pos start / median / stop, their window computed by the model from (date, duration, date_pos)), dates before / at / 1 ms beside / inside / after every maneuver and before the orbit's date, second leg from the returned "
         "orbit; hillSol and the fixed sequencing vs an independent matrix-exponential integration; CWHelper vs its translation; non-trivial = t != 0; distinct = distinct request line. "
-        "oracle: finite-difference Hill residual, composition, impulse jump, TNW permutation, propagate vs the independent integration of Hill's equations with the piecewise-constant sum "
+        "world: random histories (HillFrame of both orientations about Earth / Moon / Sun / a user-defined centre in every constructor form, ClohessyWiltshire on a frame object or on frame='Hill', copy, reads of n, "
+        "propagation of fresh orbits and further propagation of returned points, interleaved) on the real classes vs World.run. "
+        "oracle: own-target (targets about every centre, another Hill frame of the same / other orientation and centre created before the frame / the propagator / its first use / between two legs: state vs the independent "
+        "integration with n from the inputs, n, helper period), finite-difference Hill residual, composition, impulse jump, TNW permutation, propagate vs the independent integration of Hill's equations with the piecewise-constant sum "
         "of the active thrusts (one leg, second leg forwards and backwards, superposition), discrepancy with the exact relative two-body motion at three separations (exponent), helper outcomes on the real API")
 
 CW_PY = os.path.join(core.REPO, "beyond", "propagators", "cw.py")
@@ -386,6 +408,58 @@ def manStopSrc (pos : Nat) (date duration : R) : R :=
 """
 
 
+FRAMES_PY = os.path.join(core.REPO, "beyond", "frames", "frames.py")
+
+
+def translate_mean_motion():
+    """`ClohessyWiltshire.n` -> `meanMotionSrc mu sma` (the expression assigned to the memo `_n`; the model is memo-free: the mean motion
+    is a function of the CURRENT gravitational parameter of the frame's centre and of the semi major axis), plus the structural facts the
+    object model of templates/CWFrames.tpl rests on, checked on the AST on every run: `__init__` stores `sma` and `frame` as given
+    (a str goes through `get_frame`), `copy()` builds a new propagator from `self.sma` and `self.frame`, `HillFrame.__init__` stores
+    `orientation` and `center` as given and registers itself as `dynamic["Hill"]`."""
+    U = py2lean.Untranslatable
+    tree = ast.parse(open(CW_PY).read())
+    fn = py2lean.find_function(tree, "ClohessyWiltshire.n")
+    assigns = [x for x in ast.walk(fn) if isinstance(x, ast.Assign) and len(x.targets) == 1 and ast.unparse(x.targets[0]) == "self._n"]
+    rets = [x for x in ast.walk(fn) if isinstance(x, ast.Return)]
+    if len(rets) != 1:
+        raise U("ClohessyWiltshire.n: not a single return")
+    if len(assigns) == 1 and ast.unparse(rets[0].value) == "self._n":
+        value = assigns[0].value            # memoised form
+        memoised = True
+    elif not assigns and not any(isinstance(x, ast.Assign) for x in ast.walk(fn)):
+        value = rets[0].value               # memo-free form (proposed_fixes/C16-mean-motion-memo.diff)
+        memoised = False
+    else:
+        raise U("ClohessyWiltshire.n: neither `self._n = <expr>; return self._n` nor `return <expr>`")
+    mu_names = {"self.frame.center.body." + a: "mu" for a in ("mu", "\u00b5", "\u03bc")}
+    expr = py2lean.Tr(consts=dict(mu_names, **{"self.sma": "sma"})).expr(value)
+    init = py2lean.find_function(tree, "ClohessyWiltshire.__init__")
+    if [a.arg for a in init.args.args] != ["self", "sma", "frame"] or ast.unparse(init.args.defaults[0]) != "'Hill'":
+        raise U("ClohessyWiltshire.__init__: signature changed")
+    lines = [ast.unparse(x) for x in init.body if not (isinstance(x, ast.Expr) and isinstance(x.value, ast.Constant))]
+    stores = [l for l in lines if l.startswith("self.")]
+    if sorted(stores) != ["self.frame = frame", "self.sma = sma"] or not any(l.startswith("if isinstance(frame, str):\n    frame = get_frame(frame)") for l in lines):
+        raise U("ClohessyWiltshire.__init__: does not store sma / frame as given")
+    cp = py2lean.find_function(tree, "ClohessyWiltshire.copy")
+    if [ast.unparse(x) for x in cp.body] != ["return self.__class__(self.sma, frame=self.frame)"]:
+        raise U("ClohessyWiltshire.copy: changed")
+    ftree = ast.parse(open(FRAMES_PY).read())
+    hf = py2lean.find_function(ftree, "HillFrame.__init__")
+    if [a.arg for a in hf.args.args] != ["self", "orientation", "center"] or [ast.unparse(d) for d in hf.args.defaults] != ["DEFAULT_ORIENTATION", "center.Earth"]:
+        raise U("HillFrame.__init__: signature changed")
+    hl = [ast.unparse(x) for x in hf.body if not (isinstance(x, ast.Expr) and isinstance(x.value, ast.Constant))]
+    if not {"self.orientation = orientation", "self.center = center", "dynamic['Hill'] = self"} <= set(hl):
+        raise U("HillFrame.__init__: does not store orientation / center as given")
+    return f"""/-- `ClohessyWiltshire.n`: the value the memo `_n` is filled with; `mu` = `self.frame.center.body.mu`, `sma` = `self.sma` -/
+def meanMotionSrc (mu sma : R) : R :=
+  {expr}
+
+/-- does `ClohessyWiltshire.n` keep its first value in `self._n` (`if not hasattr(self, "_n"): self._n = …; return self._n`) -/
+def nMemoised : Bool := {'true' if memoised else 'false'}
+"""
+
+
 def extract(ctx):
     body = py2lean.translate_slice(CW_PY, "ClohessyWiltshire._propagate", ["n", "t"], ["evol_mat", "accel_mat"], "cwMats",
                                    stop_before=lambda s: isinstance(s, ast.If) and "orientation" in ast.dump(s.test))
@@ -393,6 +467,7 @@ def extract(ctx):
     ch += instantiate.main()
     ch += py2lean.instantiate(core.LEAN, "CWHelper", translate_helpers(), "beyond/utils/cwhelper.py", imports=["Model.CW"])
     ch += py2lean.instantiate(core.LEAN, "CWSeqSrc", translate_sequencing_source(), "beyond/propagators/cw.py, beyond/orbits/man.py")
+    ch += py2lean.instantiate(core.LEAN, "CWMean", translate_mean_motion(), "beyond/propagators/cw.py, beyond/frames/frames.py")
     return ch
 
 
@@ -572,6 +647,8 @@ def correspondence(ctx):
         reqs.append(" ".join(["cwfix", f2b(n), f2b(tr), f2b(t0r)] + [f2b(v) for v in x] + man_tokens(mans)))
         meta.append(("fixed-sequencing-reference", list(map(float, ref)), 10 * sp, 10 * (sp * n + sv), {"sma": sma, "t0": t0r, "t": tr, "x": x, "mans": mans}))
         out.count(key=reqs[-1], kind="fixed-sequencing-reference", direction="backward" if tr < t0r else "forward", shape=shape(mans))
+    world_histories(out, rng, ctx.n(150, 3000))
+    memo_histories(out, rng, ctx.n(100, 2000))
     helper_formulas(out, rng, ctx.n(40, 400))
     helper_translated(out, rng, ctx.n(40, 400))
     replies = core.Driver().run(reqs)
@@ -579,6 +656,265 @@ def correspondence(ctx):
         compare(out, kind, req, real, rep, sp, sv, inp)
         out.sample({"request": req[:120] + "…", "impl": real, "model": [b2f(s) for s in rep.split()] if rep[0].isdigit() else rep}, limit=2)
     return out
+
+
+# ---------------------------------------------------------------- several Hill frames / propagators in one process
+
+_CENTRES = None
+CENTRE_NAMES = ["Earth", "Moon", "Mars", "Sun"]
+
+
+def centres():
+    """centres a relative-motion frame can be attached to: the built-in ones and a user-defined one (Center + constants.Body)"""
+    global _CENTRES
+    if _CENTRES is None:
+        from beyond.frames import center as cmod
+        from beyond.frames.center import Center
+        from beyond.env import solarsystem
+        from beyond import constants
+        _CENTRES = {"Earth": cmod.Earth, "Moon": solarsystem.get_frame("Moon").center, "Sun": solarsystem.get_frame("Sun").center,
+                    "Mars": Center("Mars", body=constants.Mars)}
+    return _CENTRES
+
+
+def centre_mu(name):
+    """gravitational parameter of the centre the CALLER passes (input of the model)"""
+    return float(centres()[name].body.mu)
+
+
+def centre_name(c):
+    return next((k for k, v in centres().items() if v is c), None)
+
+
+def gen_sma(rng, cname):
+    if cname == "Earth":
+        return rng.choice([6.6e6, 6.8e6, 7.2e6, 1.2e7, 2.66e7, 4.2164e7]) * rng.uniform(0.98, 1.02)
+    r = float(centres()[cname].body.equatorial_radius)
+    return r * rng.uniform(1.03, 6.6)
+
+
+def gen_state(rng, n):
+    scale = rng.choice([1.0, 100.0, 3000.0])
+    return [rng.uniform(-1, 1) * scale for _ in range(3)] + [rng.uniform(-1, 1) * scale * n * 2 for _ in range(3)]
+
+
+def gen_history(rng, frame0):
+    """a random history of one process: frames of both orientations about several centres (every constructor form), propagators on a
+    frame object / on frame="Hill" (every constructor form), copies, reads of n, propagations of fresh orbits and further propagation
+    of returned points — interleaved in any order.  frame0 = (orientation, centre name) of dynamic["Hill"] at the start."""
+    frames = [frame0]
+    props = []          # (frame index, sma)
+    pts = []            # prop index
+    ops = []
+    k = rng.choice([4, 6, 8, 10, 12])
+    for step in range(k):
+        kinds = ["F", "F", "P", "H"]
+        if props:
+            kinds += ["C", "N", "N", "R", "R", "R"]
+        if pts:
+            kinds += ["L", "L", "L"]
+        kind = rng.choice(kinds) if step > 1 else ("F" if step == 0 and rng.random() < 0.6 else rng.choice(["P", "H"]))
+        if kind == "F":
+            ori = rng.choice(["QSW", "TNW"])
+            cname = rng.choice(CENTRE_NAMES + ["Earth"])
+            forms = ["kw", "pos"] + (["default-ori"] if ori == "QSW" else []) + (["default-center"] if cname == "Earth" else [])
+            ops.append(("F", ori, cname, rng.choice(forms)))
+            frames.append((ori, cname))
+        elif kind == "P":
+            f = rng.randrange(len(frames))
+            sma = gen_sma(rng, frames[f][1])
+            ops.append(("P", f, sma, rng.choice(["kw", "pos"])))
+            props.append((f, sma))
+        elif kind == "H":
+            f = len(frames) - 1
+            sma = gen_sma(rng, frames[f][1])
+            ops.append(("H", sma, rng.choice(["default", "kw", "pos"])))
+            props.append((f, sma))
+        elif kind == "C":
+            pi = rng.randrange(len(props))
+            ops.append(("C", pi))
+            props.append(props[pi])
+        elif kind == "N":
+            ops.append(("N", rng.randrange(len(props))))
+        elif kind == "R":
+            pi = rng.randrange(len(props))
+            f, sma = props[pi]
+            n = math.sqrt(centre_mu(frames[f][1]) / sma ** 3)
+            t = q(rng.uniform(-1, 1) * 2 * math.pi / n)
+            ops.append(("R", pi, t, gen_state(rng, n)))
+            pts.append(pi)
+        else:
+            qi = rng.randrange(len(pts))
+            f, sma = props[pts[qi]]
+            n = math.sqrt(centre_mu(frames[f][1]) / sma ** 3)
+            ops.append(("L", qi, q(rng.uniform(-1, 1) * 2 * math.pi / n)))
+            pts.append(pts[qi])
+    if not any(o[0] in "NRL" for o in ops):
+        ops.append(("N", 0))
+    return ops
+
+
+def run_history(ops):
+    """the history on the real classes; returns (frame0, flat list of what the reads returned, per-read scales)"""
+    from beyond.orbits import Orbit
+    from beyond.dates import Date, timedelta
+    from beyond.propagators.cw import ClohessyWiltshire
+    from beyond.frames.frames import HillFrame, get_frame
+    cs = centres()
+    d0 = Date(2020, 5, 24)
+    frames = [get_frame("Hill")]
+    props, pts, res = [], [], []
+    for op in ops:
+        if op[0] == "F":
+            _, ori, cname, form = op
+            c = cs[cname]
+            f = {"kw": lambda: HillFrame(orientation=ori, center=c), "pos": lambda: HillFrame(ori, c),
+                 "default-ori": lambda: HillFrame(center=c), "default-center": lambda: HillFrame(ori)}[form]()
+            frames.append(f)
+        elif op[0] == "P":
+            props.append(ClohessyWiltshire(op[2], frame=frames[op[1]]) if op[3] == "kw" else ClohessyWiltshire(op[2], frames[op[1]]))
+        elif op[0] == "H":
+            props.append({"default": lambda: ClohessyWiltshire(op[1]), "kw": lambda: ClohessyWiltshire(op[1], frame="Hill"),
+                          "pos": lambda: ClohessyWiltshire(op[1], "Hill")}[op[2]]())
+        elif op[0] == "C":
+            props.append(props[op[1]].copy())
+        elif op[0] == "N":
+            pr = props[op[1]]
+            res.append(("n", [float(pr.n), 0.0 if pr.frame.orientation == "QSW" else 1.0]))
+        elif op[0] == "R":
+            pr = props[op[1]]
+            orb = Orbit(list(op[3]), d0, "cartesian", pr.frame, pr)
+            pt = orb.propagate(timedelta(seconds=op[2]))
+            pts.append(pt)
+            res.append(("state", [float(v) for v in pt]))
+        else:
+            pt = pts[op[1]].propagate(timedelta(seconds=op[2]))
+            pts.append(pt)
+            res.append(("state", [float(v) for v in pt]))
+    return res
+
+
+def history_request(frame0, ops):
+    toks = ["world", f2b(0.0 if frame0[0] == "QSW" else 1.0), f2b(centre_mu(frame0[1]))]
+    for op in ops:
+        if op[0] == "F":
+            toks += ["F", f2b(0.0 if op[1] == "QSW" else 1.0), f2b(centre_mu(op[2]))]
+        elif op[0] == "P":
+            toks += ["P", f2b(float(op[1])), f2b(op[2])]
+        elif op[0] == "H":
+            toks += ["H", f2b(op[1])]
+        elif op[0] in ("C", "N"):
+            toks += [op[0], f2b(float(op[1]))]
+        elif op[0] == "R":
+            toks += ["R", f2b(float(op[1])), f2b(op[2])] + [f2b(v) for v in op[3]]
+        else:
+            toks += ["L", f2b(float(op[1])), f2b(op[2])]
+    return " ".join(toks)
+
+
+def current_frame0():
+    from beyond.frames.frames import get_frame
+    f = get_frame("Hill")
+    return (f.orientation, centre_name(f.center))
+
+
+def history_shape(frame0, ops):
+    """does the history contain two frames of the same orientation about different centres / of different orientations"""
+    fr = [frame0] + [(o[1], o[2]) for o in ops if o[0] == "F"]
+    same = any(a[0] == b[0] and a[1] != b[1] for a in fr for b in fr)
+    return ("same-ori-other-centre" if same else "one-centre-per-ori") + ("+both-ori" if len({a[0] for a in fr}) > 1 else "")
+
+
+def world_histories(out, rng, N):
+    """random histories on the real HillFrame / ClohessyWiltshire objects against the object model `World` (Model/CWFrames): every read of
+    n, every propagated state (fresh orbit, further propagation of a returned point) must be what the model — memo-free, frames
+    immutable, n = meanMotionSrc(mu of the propagator's own frame centre, its own sma) — returns"""
+    reqs, meta = [], []
+    for _ in range(N):
+        frame0 = current_frame0()
+        if frame0[1] is None:
+            from beyond.frames.frames import HillFrame
+            HillFrame()
+            frame0 = current_frame0()
+        ops = gen_history(rng, frame0)
+        real = run_history(ops)
+        reqs.append(history_request(frame0, ops))
+        meta.append((frame0, ops, real))
+        out.count(key=reqs[-1], kind="world-history", shape=history_shape(frame0, ops), length=min(len(ops), 12),
+                  reads="+".join(sorted({o[0] for o in ops if o[0] in "NRL"})))
+    for req, (frame0, ops, real), rep in zip(reqs, meta, core.Driver().run(reqs)):
+        inp = {"frame0": list(frame0), "history": [list(o) for o in ops]}
+        flat = [v for _, vs in real for v in vs]
+        if not rep or not rep[0].isdigit():
+            out.fail("cw-world", "model rejected the history", inp, observed=flat, expected=rep)
+            continue
+        model = [b2f(t) for t in rep.split()]
+        if len(model) != len(flat):
+            out.fail("cw-world", "model returns another number of reads", inp, observed=flat, expected=model)
+            continue
+        i = 0
+        reads = [o for o in ops if o[0] in "NRL"]
+        for (kind, vs), o in zip(real, reads):
+            mv = model[i:i + len(vs)]
+            i += len(vs)
+            if kind == "n":
+                ok = abs(vs[0] - mv[0]) <= 1e-12 * abs(mv[0]) and vs[1] == mv[1]
+            else:
+                sp = max(abs(v) for v in mv[:3]) + 1.0
+                sv = max(abs(v) for v in mv[3:]) + 1e-6
+                # both sides evaluate the same closed form; the only difference is the last bits of n (pow vs repeated product) times n t <= 4 pi
+                ok = all(abs(a - b) <= 1e-8 * (sp if j < 3 else sv) * 50 for j, (a, b) in enumerate(zip(vs, mv)))
+            if not ok:
+                out.fail("cw-world-" + ("mean-motion" if kind == "n" else "state"),
+                         "after this history of frame / propagator creations the real objects return something else than the object model "
+                         "(mean motion = meanMotionSrc of the propagator's OWN centre and semi major axis, whatever else exists in the process)",
+                         dict(inp, read=list(o)), observed=vs, expected=mv)
+                break
+
+
+def memo_histories(out, rng, N):
+    """one real propagator through random sequences of reads of n, in-place writes of sma / frame (a frame about another centre) and
+    copy(), against the model of the memo `_n` (Model/CWFrames `Memo`: filled at the first read, untouched by the writes, absent from a
+    copy — or no memo at all when the source computes n at every read)"""
+    from beyond.propagators.cw import ClohessyWiltshire
+    from beyond.frames.frames import HillFrame
+    reqs, meta = [], []
+    for _ in range(N):
+        cname = rng.choice(CENTRE_NAMES)
+        ori = rng.choice(["QSW", "TNW"])
+        sma = gen_sma(rng, cname)
+        prop = ClohessyWiltshire(sma, frame=HillFrame(ori, centres()[cname]))
+        toks = ["memo", f2b(centre_mu(cname)), f2b(sma)]
+        hist, real = [], []
+        for _k in range(rng.choice([2, 3, 5, 8])):
+            op = rng.choice(["r", "r", "w-sma", "w-frame", "c"])
+            if op == "r":
+                real.append(float(prop.n))
+                toks.append("r")
+                hist.append(["read"])
+            elif op == "c":
+                prop = prop.copy()
+                toks.append("c")
+                hist.append(["copy"])
+            else:
+                if op == "w-frame":
+                    cname = rng.choice(CENTRE_NAMES)
+                    prop.frame = HillFrame(ori, centres()[cname])
+                sma = gen_sma(rng, cname)
+                prop.sma = sma
+                toks += ["w", f2b(centre_mu(cname)), f2b(sma)]
+                hist.append([op, cname, sma])
+        real.append(float(prop.n))
+        toks.append("r")
+        hist.append(["read"])
+        reqs.append(" ".join(toks))
+        meta.append((hist, real))
+        out.count(key=reqs[-1], kind="memo-history", writes=min(3, sum(1 for h in hist if h[0].startswith("w"))), copies=min(2, sum(1 for h in hist if h[0] == "copy")))
+    for req, (hist, real), rep in zip(reqs, meta, core.Driver().run(reqs)):
+        model = [b2f(t) for t in rep.split()] if rep and rep[0].isdigit() else None
+        if model is None or len(model) != len(real) or not all(abs(a - b) <= 1e-12 * abs(b) for a, b in zip(real, model)):
+            out.fail("cw-memo", "reads of ClohessyWiltshire.n along this history of writes / copies differ from the model of the memo", {"history": hist},
+                     observed=real, expected=model if model is not None else rep)
 
 
 def flat_mans(mans, d0):
@@ -768,6 +1104,8 @@ def oracle(ctx, widened):
             out.fail("hill-residual-thrust", "state during a continuous maneuver violates the forced Hill equations",
                      {"sma": sma, "t": tq, "x": x, "man": ["c", ts, te, acc, pos]}, observed=list(map(float, d)), expected=list(map(float, rhs)))
     piecewise(out, rng, 600 if (widened or ctx.thorough) else 90)
+    foreign_frames(out, rng, 1500 if (widened or ctx.thorough) else 150)
+    write_then_read(out, rng, 600 if (widened or ctx.thorough) else 90)
     second_order(out, rng, 40 if (widened or ctx.thorough) else 6)
     helpers(out, rng, 60 if (widened or ctx.thorough) else 12)
     vbar(out, rng, 40 if (widened or ctx.thorough) else 8)
@@ -1032,6 +1370,138 @@ def piecewise(out, rng, N):
             check_seq(out, "second-leg", ori, sma, xm, mans, t1, t2, got, n, kind)
 
 
+def foreign_frames(out, rng, N):
+    """the propagated state solves Hill's equations with the mean motion of the propagator's OWN target (n^2 a^3 = mu of the centre its frame
+    was built about — Earth, Moon, Sun, a user-defined centre), whatever other Hill frames (same / other orientation, same / other centre)
+    come into existence before the frame, before the propagator, before its first use or between two legs.  Reference: the independent
+    matrix-exponential integration of Hill's equations with n computed from the inputs; also n itself and the helper's period."""
+    import numpy as np
+    from beyond.orbits import Orbit
+    from beyond.dates import Date, timedelta
+    from beyond.propagators.cw import ClohessyWiltshire
+    from beyond.frames.frames import HillFrame
+    from beyond.utils.cwhelper import CWHelper
+    for _ in range(N):
+        cname = rng.choice(CENTRE_NAMES)
+        ori = rng.choice(["QSW", "TNW"])
+        sma = gen_sma(rng, cname)
+        n = math.sqrt(centre_mu(cname) / sma ** 3)
+        period = 2 * math.pi / n
+        xq = gen_state(rng, n)
+        x = P6(xq) if ori == "TNW" else xq
+        where = rng.choice(["before-frame", "before-propagator", "before-first-use", "between-legs", "after-n-read", "none"])
+        by = (rng.choice(["QSW", "TNW"]), rng.choice(CENTRE_NAMES))
+        t1, t2 = q(rng.uniform(-1, 1) * period), q(rng.uniform(-1, 1) * period)
+        own_target_one(out, cname, ori, sma, x, t1, t2, by, where)
+
+
+def own_target_one(out, cname, ori, sma, x, t1, t2, by, where):
+    import numpy as np
+    from beyond.orbits import Orbit
+    from beyond.dates import Date, timedelta
+    from beyond.propagators.cw import ClohessyWiltshire
+    from beyond.frames.frames import HillFrame
+    from beyond.utils.cwhelper import CWHelper
+    d0 = Date(2020, 5, 24)
+    if True:
+        n = math.sqrt(centre_mu(cname) / sma ** 3)
+        period = 2 * math.pi / n
+        xq = [-x[1], x[0], x[2], -x[4], x[3], x[5]] if ori == "TNW" else list(x)
+        rel = ("same-ori" if by[0] == ori else "other-ori") + ("-same-centre" if by[1] == cname else "-other-centre")
+
+        def bystander(at):
+            if where == at:
+                HillFrame(orientation=by[0], center=centres()[by[1]])
+        bystander("before-frame")
+        hill = HillFrame(orientation=ori, center=centres()[cname])
+        bystander("before-propagator")
+        prop = ClohessyWiltshire(sma, frame=hill)
+        if where == "after-n-read":
+            float(prop.n)
+        bystander("after-n-read")
+        orb = Orbit(list(x), d0, "cartesian", hill, prop)
+        bystander("before-first-use")
+        leg1 = orb.propagate(timedelta(seconds=t1))
+        bystander("between-legs")
+        leg2 = leg1.propagate(timedelta(seconds=t2))
+        inp = {"centre": cname, "ori": ori, "sma": sma, "x": x, "t1": t1, "t2": t2, "other_frame": list(by), "created": where}
+        out.count(key=("own-target", cname, ori, sma, t1, t2), kind="own-target-" + cname, other=rel if where != "none" else "none", created=where)
+        sv = max(abs(v) for v in xq[3:]) + 1e-9
+        sp = max(abs(v) for v in xq[:3]) + (abs(t1) + abs(t2)) * sv + 1.0
+        tol = np.array([1e-8 * sp + 1e-7] * 3 + [1e-8 * (sp * n + sv) + 1e-10] * 3)
+        ok = True
+        for name, got, t in (("first leg", leg1, t1), ("second leg", leg2, q(t1 + t2))):
+            ref = hill_flow(n, t, xq, [0.0, 0.0, 0.0])
+            if ori == "TNW":
+                ref = np.array(P6(list(ref)))
+            if not np.all(np.abs(np.array(got, dtype=float) - ref) <= tol):
+                out.fail("own-target-mean-motion", f"{name}: the propagated state is not the solution of Hill's equations for the mean motion of its own target "
+                         "(n^2 a^3 = mu of the centre its Hill frame was built about)", inp, observed=[float(v) for v in got], expected=[float(v) for v in ref])
+                ok = False
+                break
+        if ok:
+            per = CWHelper(prop).period.total_seconds()
+            if abs(float(prop.n) - n) > 1e-12 * n or abs(per - period) > 1e-9 * period + 2e-6:
+                out.fail("own-target-mean-motion", "mean motion / helper period of the propagator is not the one of its own target", inp,
+                         observed={"n": float(prop.n), "period": per}, expected={"n": n, "period": period})
+
+
+def write_then_read(out, rng, N):
+    """a read after an in-place write returns what a fresh object returns: `prop.sma` / `prop.frame` (plain public attributes) are
+    reassigned before or after the propagator was first used (n read / a propagation); the next propagation must be the solution of
+    Hill's equations for the CURRENT target (reference: independent integration with n from the current values)"""
+    for _ in range(N):
+        cname = rng.choice(CENTRE_NAMES)
+        ori = rng.choice(["QSW", "TNW"])
+        sma = gen_sma(rng, cname)
+        attr = rng.choice(["sma", "frame"])
+        used = rng.choice(["n-read", "propagated", "unused"])
+        cname2 = cname if attr == "sma" else rng.choice([c for c in CENTRE_NAMES if c != cname])
+        sma2 = gen_sma(rng, cname2)
+        n2 = math.sqrt(centre_mu(cname2) / sma2 ** 3)
+        xq = gen_state(rng, n2)
+        x = P6(xq) if ori == "TNW" else xq
+        t0 = q(rng.uniform(-1, 1) * 3000.0)
+        t = q(rng.uniform(-1, 1) * 2 * math.pi / n2)
+        write_then_read_one(out, cname, ori, sma, attr, used, cname2, sma2, x, t0, t)
+
+
+def write_then_read_one(out, cname, ori, sma, attr, used, cname2, sma2, x, t0, t):
+    import numpy as np
+    from beyond.orbits import Orbit
+    from beyond.dates import Date, timedelta
+    from beyond.propagators.cw import ClohessyWiltshire
+    from beyond.frames.frames import HillFrame
+    d0 = Date(2020, 5, 24)
+    hill = HillFrame(orientation=ori, center=centres()[cname])
+    prop = ClohessyWiltshire(sma, frame=hill)
+    orb = Orbit(list(x), d0, "cartesian", hill, prop)
+    if used == "n-read":
+        float(prop.n)
+    elif used == "propagated":
+        orb.propagate(timedelta(seconds=t0))
+    if attr == "sma":
+        prop.sma = sma2
+    else:
+        prop.sma = sma2
+        prop.frame = HillFrame(orientation=ori, center=centres()[cname2])
+    got = np.array(orb.propagate(timedelta(seconds=t)), dtype=float)
+    n2 = math.sqrt(centre_mu(cname2) / sma2 ** 3)
+    xq = [-x[1], x[0], x[2], -x[4], x[3], x[5]] if ori == "TNW" else list(x)
+    ref = hill_flow(n2, t, xq, [0.0, 0.0, 0.0])
+    if ori == "TNW":
+        ref = np.array(P6(list(ref)))
+    sv = max(abs(v) for v in xq[3:]) + 1e-9
+    sp = max(abs(v) for v in xq[:3]) + abs(t) * sv + 1.0
+    tol = np.array([1e-8 * sp + 1e-7] * 3 + [1e-8 * (sp * n2 + sv) + 1e-10] * 3)
+    out.count(key=("write", cname, ori, sma, sma2, t), kind=f"write-{attr}-{used}")
+    if t != 0 and not np.all(np.abs(got - ref) <= tol):
+        fam = "in-place-write-after-first-use" if used != "unused" else "in-place-write-before-first-use"
+        out.fail(fam, f"after `prop.{attr} = ...` the propagation is not the solution of Hill's equations for the current target (what a fresh propagator built with the current values returns)",
+                 {"centre": cname, "ori": ori, "sma": sma, "written": attr, "used": used, "new_centre": cname2, "new_sma": sma2, "x": list(x), "t_first_use": t0, "t": t},
+                 observed=[float(v) for v in got], expected=[float(v) for v in ref])
+
+
 def exact_relative(n, R, s0, T, steps=1500):
     """RK4 integration of the EXACT two-body relative dynamics in the target's rotating QSW frame (target on a circular orbit of radius R,
     mu = n^2 R^3): acceleration = Coriolis (2 n vy, -2 n vx, 0) + relAcc (centrifugal - gravity) — the field whose linearisation at the
@@ -1176,6 +1646,14 @@ def replay(f):
     import numpy as np
     from beyond.dates import timedelta
     fam, inp = f["family"], f["input"]
+    if fam.startswith("in-place-write-") and isinstance(inp, dict) and "written" in inp:
+        out = Outcome()
+        write_then_read_one(out, inp["centre"], inp["ori"], inp["sma"], inp["written"], inp["used"], inp["new_centre"], inp["new_sma"], inp["x"], inp["t_first_use"], inp["t"])
+        return out
+    if fam == "own-target-mean-motion" and isinstance(inp, dict) and "other_frame" in inp:
+        out = Outcome()
+        own_target_one(out, inp["centre"], inp["ori"], inp["sma"], inp["x"], inp["t1"], inp["t2"], tuple(inp["other_frame"]), inp["created"])
+        return out
     if fam.startswith("piecewise-") and isinstance(inp, dict) and "mans" in inp:
         # re-run the recorded (list, orbit date, target date) on the real propagator against the independent integration
         out = Outcome()
